@@ -17,12 +17,19 @@ def run(tier, seed):
                                                  AttenSize='"small"' if not big else '"large"',
                                                  SampleN=8 if not big else 64), timeout=14000)
     ac.replay(ctx, r.exports["PROG"])
+    # unbounded part of the argument: TrustProof.tla (the scope -> trusted origins map, copied from Authorizer.tla; TLC
+    # checks TrustDefsAgree on every state of the universes) with machine-checked proofs that appending a block whose key
+    # nobody names changes no element's trusted origins and that the new block is in none of them (any number of blocks)
+    ctx.cov["unbounded_proof"] = vlib.tlaps("TrustProof", ctx.work)
+    vlib.log("[C03] tlapm TrustProof.tla: %s" % ctx.cov["unbounded_proof"])
     return ctx.finish(
         rule="One TLC state = (token of 1..2 blocks with one rule and one check in any owner, authorizer with a policy pair, appended block E "
              "with its own fact, optional rule (incl. rules forging authority/authorizer facts), optional check, any scope, first- or third-party). "
              "Invariant Monotone on the spec: Auth(T+E).ok => Auth(T).ok with the same policy, failed checks persist, and what every "
              "element of T and the authorizer sees is unchanged. Replay: both tokens are built and authorized on the real library, both results, "
-             "worlds and queries are compared with the spec, and Monotone is asserted directly on the two real results.")
+             "worlds and queries are compared with the spec, and Monotone is asserted directly on the two real results. Unbounded: TrustProof.tla proves with TLAPS (71 obligations) that "
+             "for any number of blocks and any scopes the trusted origins of every element of T are the same in T+E and never contain E's id; TLC checks that its definitions "
+             "agree with Authorizer.tla on every state (TrustDefsAgree).")
 
 
 def replay(path, seed):
